@@ -1,6 +1,7 @@
 import TantivyModel.Proofs.GrammarFold
 import TantivyModel.Proofs.GrammarSimplify
 import TantivyModel.Proofs.GrammarChars
+import TantivyModel.Proofs.GrammarPhrase
 import TantivyModel.Proofs.GrammarCharsPrint
 import TantivyModel.Model.Grammar.Agree
 /-!
@@ -413,5 +414,66 @@ theorem C16_lenient_divergence_witnesses :
 
 
 end Chars
+
+/-! ## phrase literals: the compile step (`Model/Grammar/Phrase.lean`)
+
+`generate_literals_for_str` numbers the phrase terms by the analyzer's `token.position`. The harness
+compares the offsets in the real compiled query with `Phrase.compile (analyse …)` on every run. -/
+section Phrase
+open TantivyModel.Grammar.Phrase
+variable {W : Type}
+
+/-- **phrase offsets are the analyzer's positions**: the terms compiled from a quoted literal are
+    exactly the kept words, each with its index in the literal as offset (a dropped token leaves
+    its gap) -/
+theorem C16_phrase_offsets_are_positions (keep : W → Bool) (ws : List W) (o : Nat) (w : W) :
+    (o, w) ∈ compile (analyse keep ws) ↔ (ws[o]? = some w ∧ keep w = true) := by
+  rw [compile_eq]
+  unfold analyse
+  rw [mem_analyseFrom]
+  constructor
+  · rintro ⟨i, rfl, h1, h2⟩
+    exact ⟨by simpa using h1, h2⟩
+  · rintro ⟨h1, h2⟩
+    exact ⟨o, by omega, h1, h2⟩
+
+/-- **the gap is preserved**: a document that contains the literal's words verbatim (whatever
+    precedes and follows, whichever words the analyzer drops) matches the compiled phrase -/
+theorem C16_phrase_keeps_gap [DecidableEq W] (keep : W → Bool) (pre ws post : List W)
+    (h : analyse keep ws ≠ []) :
+    phraseMatch (compile (analyse keep ws)) (analyse keep (pre ++ ws ++ post)) = true := by
+  rw [compile_eq]
+  cases hA : analyse keep ws with
+  | nil => exact absurd hA h
+  | cons t rest =>
+    obtain ⟨o0, w0⟩ := t
+    have hd : (pre.length + o0, w0) ∈ analyse keep (pre ++ ws ++ post) :=
+      mem_doc_of_mem_phrase keep pre ws post o0 w0 (by rw [hA]; simp)
+    unfold phraseMatch
+    simp only [List.any_eq_true]
+    refine ⟨(pre.length + o0, w0), hd, ?_⟩
+    simp only [decide_true, Bool.true_and, List.all_eq_true]
+    intro t ht
+    obtain ⟨a, b⟩ := t
+    have hm := mem_doc_of_mem_phrase keep pre ws post a b (by rw [hA]; exact List.mem_cons_of_mem _ ht)
+    have hle := analyseFrom_head_le keep 0 ws o0 w0 rest hA (a, b) ht
+    have e : pre.length + o0 + (a - o0) = pre.length + a := by simp only at hle; omega
+    simp only [e]
+    exact List.contains_iff_mem.mpr hm
+
+/-- numbering the terms by their index in the surviving token list (the seeded change C16-C)
+    loses the gap: `quick the fox` (0 = a stop word) no longer matches its own text and matches
+    `quick fox` instead -/
+theorem C16_phrase_by_index_loses_gap :
+    let keep : Nat → Bool := fun w => w != 0
+    phraseMatch (compile (analyse keep [1, 0, 2])) (analyse keep [1, 0, 2]) = true
+    ∧ phraseMatch (compileByIndex (analyse keep [1, 0, 2])) (analyse keep [1, 0, 2]) = false
+    ∧ phraseMatch (compileByIndex (analyse keep [1, 0, 2])) (analyse keep [1, 2]) = true
+    ∧ phraseMatch (compile (analyse keep [1, 0, 2])) (analyse keep [1, 2]) = false := by
+  decide
+
+example : analyse (fun w : Nat => w != 0) [1, 0, 2] ≠ [] := by decide
+
+end Phrase
 
 end TantivyModel.C16
